@@ -1087,14 +1087,27 @@ func ruleTableGob(p *Prog, r *Report) {
 		return
 	}
 	var encT, decT types.Type
-	eachInstr(enc, func(b *ssa.BasicBlock, in ssa.Instruction) {
+	// the Encode / Decode call may live in an unexported helper of the function
+	inScope := func(root *ssa.Function, visit func(b *ssa.BasicBlock, in ssa.Instruction)) {
+		var fs []*ssa.Function
+		for f := range p.Reach(root) {
+			if p.InModule(f) && len(f.Blocks) > 0 && (f == root || !p.Exported(f)) {
+				fs = append(fs, f)
+			}
+		}
+		sort.Slice(fs, func(i, j int) bool { return p.Name(fs[i]) < p.Name(fs[j]) })
+		for _, f := range fs {
+			eachInstr(f, visit)
+		}
+	}
+	inScope(enc, func(b *ssa.BasicBlock, in ssa.Instruction) {
 		if c, ok := in.(ssa.CallInstruction); ok && isCallTo(c.Common(), "(*encoding/gob.Encoder).Encode") {
 			if mi, ok := c.Common().Args[1].(*ssa.MakeInterface); ok {
 				encT = mi.X.Type()
 			}
 		}
 	})
-	eachInstr(dec, func(b *ssa.BasicBlock, in ssa.Instruction) {
+	inScope(dec, func(b *ssa.BasicBlock, in ssa.Instruction) {
 		if c, ok := in.(ssa.CallInstruction); ok && isCallTo(c.Common(), "(*encoding/gob.Decoder).Decode") {
 			if mi, ok := c.Common().Args[1].(*ssa.MakeInterface); ok {
 				decT = derefType(mi.X.Type())
